@@ -264,9 +264,8 @@ class _Tok:
         while True:
             sp = self.skip_sp()
             if self.at_end():
-                if sp and out:
-                    # trailing space: tolerated by clients, not by the ABNF
-                    raise Malformed("trailing_space")
+                # (spacing irregularities are tolerated: the property is about
+                # framing, literals, quoted strings and parentheses)
                 return out
             out.append(self.value())
 
@@ -298,13 +297,13 @@ def parse_response(parts):
     t.pos = sp + 1
     if t.at_end():
         raise Malformed("nothing_after_tag")
-    if t.peek() == 0x20:
-        raise Malformed("double_space", repr(first[:40]))
+    t.skip_sp()
     kw = t.value()
     if isinstance(kw, Atom) and kw.isdigit():
         r.num = int(kw)
-        if t.skip_sp() != 1:
-            raise Malformed("spacing", repr(first[:40]))
+        t.skip_sp()
+        if t.at_end():
+            raise Malformed("nothing_after_number", repr(first[:40]))
         kw = t.value()
     if not isinstance(kw, Atom):
         raise Malformed("keyword_not_atom", repr(first[:40]))
@@ -316,8 +315,7 @@ def parse_response(parts):
             # "tag OK" with no text: ABNF requires SP text; tolerated as empty
             r.text = ""
             return r
-        if t.skip_sp() != 1:
-            raise Malformed("spacing", repr(first[:40]))
+        t.skip_sp()
         if t.peek() == 0x5B:
             p = t.parts[t.pi]
             j = p.find(b"]", t.pos)
